@@ -138,7 +138,7 @@ func constStringsIn(fns []*ssa.Function) map[string]bool {
 
 func runC05(c *Ctx) {
 	p := c.Prog
-	c.Rule("R5.1", "every hold-back knob set by the webhook, Initialize or UpgradeBatch is released by the controller's Finalize", 14)
+	c.Rule("R5.1", "every hold-back knob set by the webhook, Initialize or UpgradeBatch is released by the controller's Finalize", 10)
 	c.Rule("R5.1c", "blue-green: saved original settings and restored settings cover each other", 9)
 	c.Rule("R5.2", "the paired undo (RestoreHPA, canary Delete) has run on every success return of Finalize", 5)
 	c.Rule("R5.3", "the composite provider finalises every child provider", 1)
